@@ -306,6 +306,20 @@ fn main(@builtin(local_invocation_index) li: u32, @builtin(global_invocation_id)
 }
 """, ("small", "boundary"))
 
+prog("large_workgroup_array_zero_init", """
+var<workgroup> big: array<u32, 300>;
+var<workgroup> grid: array<array<i32, 260>, 2>;
+@compute @workgroup_size(1)
+fn main() {
+  big[iu[0] % 300u] = 7u;
+  grid[1][iu[1] % 260u] = -3;
+  var s = 0u; var t = 0;
+  for (var i = 0u; i < 300u; i++) { s += big[i]; }
+  for (var j = 0u; j < 260u; j++) { t += grid[1][j] + grid[0][j]; }
+  ou[0] = s; oi[0] = t;
+}
+""", ("small", "boundary"))
+
 prog("multi_entry_points", """
 var<private> ga: i32 = 1;
 var<private> gb: u32 = 2u;
